@@ -600,6 +600,6 @@ func TestHlsRequest(t *testing.T) {
 func TestHttpApiRequest(t *testing.T) {
 	pbt.Run(t, pbt.Spec[HttpCase]{
 		ID: "C13", Name: "http-api-request", Gen: genHttpCase("api"), Run: runApi, Classify: classifyHttp, Isolate: true,
-		Quick: 1500, Thorough: 4000,
+		Quick: 1000, Thorough: 4000,
 	})
 }
